@@ -50,8 +50,9 @@ ASSUMPTIONS = [
     "reference provider protocol: every offered action is acknowledged running before anything else happens",
     "twin scenarios: acyclic, single-writer publishes, per-task outcomes (so that the twin differs only by the pause)",
 ]
-FAM = progs.family(unique_writers=True, per_task=True, p_loop=0.0, p_late_join=0.0, p_other_abend=0.0,
-                   p_fail=0.12, p_item_fail=0.06, p_retry=0.12, p_cmd=0.2, n_tasks=(2, 7), w_ctrl=1.2,
+FAM = progs.family(p_items=0.35, p_intermediate=0.15, intermediate_statuses=["paused", "paused", "running"],
+                   unique_writers=True, per_task=True, p_loop=0.0, p_late_join=0.0, p_other_abend=0.0,
+                   p_fail=0.12, p_item_fail=0.25, p_retry=0.12, p_cmd=0.2, n_tasks=(2, 7), w_ctrl=1.2,
                    w_rerun=0.0, w_malformed=0.05, steps=(15, 60))
 
 
